@@ -117,12 +117,28 @@ def insertByRank {α} (rank : Path → Nat) (file : α → Path) (x : α) : List
   | [] => [x]
   | y :: ys => if rank (file x) < rank (file y) then x :: y :: ys else y :: insertByRank rank file x ys
 
-def arrange (rank : Path → Nat) (st : Index) : Index :=
-  { st with defs := st.defs.foldl (fun acc d => insertByRank rank (·.file) d acc) [],
-            ubf := st.ubf.foldl (fun acc u => insertByRank rank (·.file) u acc) [] }
+/-- lay `items` out in the order `seq` gives for their files: the k-th occurrence of a file in
+    `seq` takes that file's k-th item; items `seq` does not account for follow in their order -/
+def arrangeSeq {α} (file : α → Path) (seq : List Path) (items : List α) : List α :=
+  let r := seq.foldl (fun (acc : List α × List α) f =>
+    match acc.2.find? (fun x => file x == f) with
+    | some x => (acc.1 ++ [x], acc.2.eraseP (fun y => file y == f))
+    | none => acc) (([] : List α), items)
+  r.1 ++ r.2
+
+/-- the per-name vectors as the parallel scan left them: for every fixture name the sequence of
+    files inside `definitions[name]` (`seqD name`) and inside `usage_by_fixture[name]`
+    (`seqU name`) is an input — DashMap keeps no order ACROSS names, and two names' vectors may
+    order the same two files differently, so the order is given per name.  Entries of one file
+    keep their relative order. -/
+def arrange (seqD seqU : String → List Path) (st : Index) : Index :=
+  let dn := (st.defs.map (·.name)).eraseDups
+  let un := (st.ubf.map (·.name)).eraseDups
+  { st with defs := dn.flatMap (fun n => arrangeSeq (·.file) (seqD n) (st.defs.filter (·.name == n))),
+            ubf := un.flatMap (fun n => arrangeSeq (·.file) (seqU n) (st.ubf.filter (·.name == n))) }
 
 /-- `scan_workspace_with_excludes` without a virtualenv (the venv phase is `Venv.lean`). -/
-def scanNoVenv (pfx : Path) (excluded : Path → Bool) (rank : Path → Nat) (st : Index) : Index :=
+def scanNoVenv (pfx : Path) (excluded : Path → Bool) (seqD seqU : String → List Path) (st : Index) : Index :=
   let st := { st with workspaceRoot := some [] }
   let st := scanPhase2 pfx excluded st
   let roots := (st.cache.map (·.1)).filter st.isScanRoot
@@ -131,7 +147,7 @@ def scanNoVenv (pfx : Path) (excluded : Path → Bool) (rank : Path → Nat) (st
     match st.content m with
     | some v => (analyze pfx true st m v).1
     | none => st) st
-  arrange rank st
+  arrange seqD seqU st
 
 end Index
 end PLS
